@@ -1706,6 +1706,24 @@ where
             pvs.push(entry.public_values.clone());
         }
 
+        // The preprocessed binding is read from the proof: it must declare, for every rebuilt
+        // AIR, exactly the preprocessed width that AIR evaluates over. Anything else is rejected
+        // here (the AIRs would otherwise index past the declared preprocessed row).
+        for (i, air) in airs.iter().enumerate() {
+            let expected = BaseAir::<Val<SC>>::preprocessed_width(air);
+            let declared = common
+                .preprocessed
+                .as_ref()
+                .and_then(|g| g.instances.get(i))
+                .and_then(|meta| meta.as_ref())
+                .map_or(0, |meta| meta.width);
+            if declared != expected {
+                return Err(BatchStarkProverError::Verify(format!(
+                    "preprocessed width mismatch for table {i}: the proof declares {declared}, the AIR has {expected}"
+                )));
+            }
+        }
+
         // Derive lookups from the rebuilt AIRs so the layout always reflects the effective
         // lane counts stored in `proof.table_packing`. The serialized `stark_common` only
         // carries the preprocessed binding, not the lookup contexts.
